@@ -24,7 +24,13 @@ def gen_lines(rng, tier):
         fixed = 4 + len(proto) + 1 + 2 + (0 if comment is None else 1 + len(comment))
         if total - fixed < 4:
             comment, fixed = None, 4 + len(proto) + 1 + 2
-        sw = 'srv' + ''.join(rng.choice(alpha) for _ in range(total - fixed - 3))
+        # software versions of the vendors the library recognises (it splits them into vendor and version) as well as unknown
+        # ones; the version part may contain the vendor's own separator again (OpenSSH_for_Windows_8.1, IPSSH-6.9.0-beta)
+        pre = rng.choice(['srv', 'srv', 'OpenSSH_', 'OpenSSH_for_Windows_', 'OpenSSH_7.4p1_hpn', 'dropbear_', 'dropbear_2019.78_', 'IPSSH-', 'IPSSH-6.9.0-',
+                          'cryptlib', 'Monaca', 'OpenSSH', 'dropbear-', 'IPSSH_'])
+        if total - fixed < len(pre) + 1:
+            pre = 'srv'
+        sw = pre + ''.join(rng.choice(alpha + ('-' if pre != 'srv' else '')) for _ in range(total - fixed - len(pre)))
         c = '_' if comment is None else comment.encode().hex()
         lines.append('bannerenc %s %s %s' % (proto.encode().hex(), sw.encode().hex(), c))
     for _ in range(n // 8):
